@@ -416,6 +416,18 @@ func runC11(seed int64, tier string, sc *Script) map[string]any {
 	runOne("prepop-filelink", []tarEnt{{'h', "d/h", "d/vlink"}, {'r', "d/h", ""}}, "")
 	runOne("prepop-filelink", []tarEnt{{'s', "d/s2", "vlink"}, {'r', "d/s2", ""}}, "")
 	archivePrepop = nil
+	// directory entries are names too: with ".." segments, absolute, and beneath a link that
+	// the directory already holds
+	runOne("dir-dotdot", []tarEnt{{'d', "../../escaped/deep", ""}}, "")
+	runOne("dir-dotdot", []tarEnt{{'d', "d/../../../escaped", ""}, {'r', "d/../../../escaped/x", ""}}, "")
+	runOne("dir-abs", []tarEnt{{'d', "ABS:outside/newdir", ""}}, "")
+	archivePrepop = func(sb *sandbox) {
+		os.MkdirAll(filepath.Join(sb.wd, "d", "d"), 0o755)
+		os.Symlink(filepath.Join(sb.root, "outside"), filepath.Join(sb.wd, "d", "d", "out"))
+	}
+	runOne("prepop-dirlink-mkdir", []tarEnt{{'d', "d/out/planted", ""}}, "")
+	runOne("prepop-dirlink-mkdir", []tarEnt{{'d', "d/out/planted/deeper", ""}}, "")
+	archivePrepop = nil
 	// PreservePermissions: the modes an archive carries are applied inside the working
 	// directory only - a hard link to a file of the process directory shares that file's
 	// inode, and must not have the entry's mode applied to it
